@@ -168,6 +168,7 @@ func PropC13(c *vs.Case, f Factory, kind string) error {
 	onlySuperseded := false
 	servedMalformed := false
 	claimedLength := int64(0)
+	servedCustomize := false
 	h := func(_ *http.Request, reqBody []byte) HookResponse {
 		req, _ := vs.DecodeJSON(reqBody)
 		var resp map[string]any
@@ -301,6 +302,7 @@ func PropC13(c *vs.Case, f Factory, kind string) error {
 	}
 	if customize {
 		env.W.Hooks.Handle(CustomizeURL, func(_ *http.Request, _ []byte) HookResponse {
+			servedCustomize = true
 			return HookResponse{Code: code, Body: []byte(body), ContentLength: claimedLength}
 		})
 		// the customize answer is cached per parent generation: bump it so the hook is asked again
@@ -336,6 +338,11 @@ func PropC13(c *vs.Case, f Factory, kind string) error {
 		}
 	} else {
 		c.Class("accepted")
+		// whatever the hook type: an answer with another status than 200 (429 aside, which asks for a later retry) is no
+		// answer at all (C19) - a sync that swallows it carries on with data the hook never gave
+		if customize && code != 200 && code != 429 && servedCustomize {
+			return withTrace(vs.Violf("C13/rejected-customize-answer-ignored", "the customize hook answered HTTP %d (%s); the sync reported no error and carried on as if there were no related objects", code, desc), t)
+		}
 		// strict decoding: a field the response type does not know makes the whole answer unusable
 		if scn.Cfg.Strict && !customize && mutatedPath == "unknownField" && servedMalformed {
 			return withTrace(vs.Violf("C13/strict-accepts-unknown-field", "strict response decoding is configured and hook %s answered with an unknown top-level field (%s), yet the sync accepted the answer", which, desc), t)
